@@ -107,7 +107,8 @@ package registration
 //@   |   && StGet("token", ret).State == opts(opt).WithState
 //@   ensures[C06 created] err == nil && !opts(opt).WithSkipStorage && opts(opt).WithStorageWrapper == nil ==>
 //@   |   now(0) <= unMts(bytes(StGet("token", ret).CreationTimeMarshaled)) && unMts(bytes(StGet("token", ret).CreationTimeMarshaled)) <= now(last)
-//@   ensures[C06 id] err == nil ==> exists h String, n String :: len(h) == 32 && len(n) == 32 && ret == b58(hmacSum(h, n))
+// (both halves of the token are 32 bytes drawn from the random reader - neither is a constant)
+//@   ensures[C06 id] err == nil ==> exists h String, n String :: len(h) == 32 && len(n) == 32 && fromReader(h) && fromReader(n) && ret == b58(hmacSum(h, n))
 //@   ensures[C13 othertokens] forall j String :: j != ret ==> unchangedToken(j)
 //@   ensures[C13 failedclean] err != nil ==> forall j String :: StHas("token", j) == old(StHas("token", j))
 //@   call types.(*ServerLedActivationToken).Store assert[C12 wrapperpassed] opts(arg3).WithStorageWrapper == opts(opt).WithStorageWrapper
@@ -174,6 +175,7 @@ package registration
 // that record carries the encryption key of the signed request, the credentials inside echo the request's nonce,
 // carry the record's certificate chains and the public half of the record's server key; the record is the stored one;
 // the signature is made with the key of the stored current root.
+//@   call types.LoadNodeInformation assert[C04,C12 optspassed] opts(arg3).WithStorageWrapper == opts(opt).WithStorageWrapper
 //@   call nodeenrollment.EncryptMessage assert[C04 sealedfor] nodeInfo != nil && payload(arg2) == nodeInfo && payload(arg1) == nodeCreds
 //@   |   && bytes(nodeInfo.EncryptionPublicKeyBytes) == encpub && bytes(nodeInfo.CertificatePublicKeyPkix) == certpub
 //@   |   && bytes(nodeCreds.RegistrationNonce) == nonce && nodeCreds.CertificateBundles == nodeInfo.CertificateBundles
